@@ -3,6 +3,7 @@ package checks
 import (
 	"errors"
 	"fmt"
+	"math"
 	"os"
 	"path/filepath"
 	"regexp"
@@ -108,12 +109,13 @@ type btScen struct {
 	Mode      string // dpor | s0
 	NoStrat   bool   // HTML: do not render the per-strategy reports (they are private to one worker and dominate the cost)
 	FailWrite int    // recorder only: 1 = Write fails for the first strategy of the first asset, 2 = for every strategy of the first asset, 3 = for the first strategy of every asset
+	NaNAsset  int    // 1 + index of the asset whose first close inside the window is NaN (0: none); the closes are then assigned to the assets in reverse order
 	LastDays  int    // look-back in days (0: the scenarios' default of 5); values of 10 and more cover the whole repository
 	Twice     bool   // Run is called twice on the same Backtest and report object; the second run is judged like the first
 }
 
 func (s btScen) String() string {
-	return fmt.Sprintf("assets=%d unknown-names=%d strategies=#%d workers=%d report=%s explicit=%v mode=%s strategyReports=%v runs=%d lastDays=%d failingWrites=%d", s.NAssets, s.Missing, s.Strats, s.Workers, s.Report, s.Explicit, s.Mode, !s.NoStrat, map[bool]int{false: 1, true: 2}[s.Twice], max(s.LastDays, 5), s.FailWrite)
+	return fmt.Sprintf("assets=%d unknown-names=%d strategies=#%d workers=%d report=%s explicit=%v mode=%s strategyReports=%v runs=%d lastDays=%d failingWrites=%d nanAsset=%d", s.NAssets, s.Missing, s.Strats, s.Workers, s.Report, s.Explicit, s.Mode, !s.NoStrat, map[bool]int{false: 1, true: 2}[s.Twice], max(s.LastDays, 5), s.FailWrite, s.NaNAsset)
 }
 
 func btStrategies(v int) []strategy.Strategy {
@@ -138,7 +140,7 @@ var btCloses = [][]float64{
 	{50, 50.3, 50.35},
 }
 
-var outcomeRe = regexp.MustCompile(`(-?[0-9]+\.[0-9][0-9])%`)
+var outcomeRe = regexp.MustCompile(`(-?[0-9]+\.[0-9][0-9]|NaN)%`)
 
 func btScenario(s btScen) explore.Scenario {
 	return func() explore.Exec {
@@ -160,7 +162,14 @@ func btScenario(s btScen) explore.Scenario {
 				for k, c := range []float64{10, 20} {
 					all = append(all, &asset.Snapshot{Date: today.AddDate(0, 0, -9+k), Open: c, High: c, Low: c, Close: c, Volume: 1})
 				}
-				for k, c := range btCloses[i] {
+				closes := btCloses[i]
+				if s.NaNAsset > 0 {
+					closes = append([]float64{}, btCloses[s.NAssets-1-i]...)
+					if i == s.NaNAsset-1 {
+						closes[0] = math.NaN()
+					}
+				}
+				for k, c := range closes {
 					sn := &asset.Snapshot{Date: today.AddDate(0, 0, -3+k), Open: c, High: c, Low: c, Close: c, Volume: 1}
 					all = append(all, sn)
 					window = append(window, sn)
@@ -389,11 +398,18 @@ func sortedCopy(xs []float64) []float64 {
 	return c
 }
 
+// nonIncreasing judges the ranking of the results that have an order at all: a NaN outcome (an asset or strategy that
+// traded on a day without a quote) may stand anywhere, the finite outcomes among themselves must not increase.
 func nonIncreasing(xs []float64) bool {
-	for i := 1; i < len(xs); i++ {
-		if xs[i] > xs[i-1] {
+	prev := math.Inf(1)
+	for _, x := range xs {
+		if math.IsNaN(x) {
+			continue
+		}
+		if x > prev {
 			return false
 		}
+		prev = x
 	}
 	return true
 }
@@ -491,6 +507,14 @@ func btScens(tier string) []btScen {
 			out = append(out, btScen{NAssets: 2, Strats: sv, Workers: 1, Report: "recorder", Explicit: true, Mode: "s0", FailWrite: fw})
 			out = append(out, btScen{NAssets: 2, Strats: sv, Workers: 2, Report: "recorder", Explicit: true, Mode: "dpor", FailWrite: fw})
 		}
+	}
+	// an asset without a quote on the first day of the window: buy-and-hold ends with a NaN outcome; the rankings keep
+	// the finite results in order
+	for na := 1; na <= 3; na++ {
+		for sv := 0; sv <= 1; sv++ {
+			out = append(out, btScen{NAssets: 3, Strats: sv, Workers: 1, Report: "html", Explicit: true, Mode: "s0", NoStrat: true, NaNAsset: na})
+		}
+		out = append(out, btScen{NAssets: 3, Strats: 0, Workers: 1, Report: "data", Explicit: true, Mode: "s0", NaNAsset: na})
 	}
 	// look-backs from two weeks to "everything" (the command line tool's -last flag): whatever the number of days, the window
 	// is the calendar interval [now - days, now]
